@@ -9,6 +9,7 @@ package main
 
 import (
 	"context"
+	"errors"
 	"fmt"
 	"net"
 	"sync"
@@ -23,12 +24,29 @@ import (
 
 func raceProbe(c *vh.Ctx) {
 	logger.SetLevel(logger.FatalLevel)
-	acked, lost := 0, 0
+	acked, lost, sentinelBad := 0, 0, 0
 	for i := 0; i < c.N; i++ {
+		// variant 0: the original single-block schedule (host, failed contention yield).
+		// variants 1..: a THREE-block outbound message whose block k (2 or 3 = last) is NAK'd
+		// retry-limit+1 times after the earlier blocks were ACK'd; the peer's ENQ + block follow the
+		// last NAK at once. Host and equipment in turn.
+		variant := i % 5
+		equip := variant == 2 || variant == 4
+		failAt := 0
+		switch variant {
+		case 1, 2:
+			failAt = 2
+		case 3, 4:
+			failAt = 3
+		}
+		limit := 0
+		if failAt > 0 && i%2 == 0 {
+			limit = 1
+		}
 		a, b := net.Pipe()
 		handed := false
-		cfg, err := secs1.NewConfig("127.0.0.1", 5000, secs1.WithHost(), secs1.WithActive(), secs1.WithDeviceID(7),
-			secs1.WithT1(mbT1), secs1.WithT2(mbT2), secs1.WithRetryLimit(0), secs1.WithT5(time.Second),
+		opts := []secs1.Option{secs1.WithActive(), secs1.WithDeviceID(7),
+			secs1.WithT1(mbT1), secs1.WithT2(mbT2), secs1.WithRetryLimit(limit), secs1.WithT5(time.Second),
 			secs1.WithConnectionOption(hsms.WithLogger(logger.NewSlog(logger.FatalLevel, false))),
 			secs1.WithDialer(func(ctx context.Context, _, _ string) (net.Conn, error) {
 				if handed {
@@ -37,7 +55,13 @@ func raceProbe(c *vh.Ctx) {
 				}
 				handed = true
 				return a, nil
-			}))
+			})}
+		if equip {
+			opts = append(opts, secs1.WithEquipment())
+		} else {
+			opts = append(opts, secs1.WithHost())
+		}
+		cfg, err := secs1.NewConfig("127.0.0.1", 5000, opts...)
 		if err != nil {
 			panic(err)
 		}
@@ -59,9 +83,9 @@ func raceProbe(c *vh.Ctx) {
 			continue
 		}
 		cancel()
-		in := make(chan byte, 4096)
+		in := make(chan byte, 8192)
 		go func() {
-			buf := make([]byte, 512)
+			buf := make([]byte, 1024)
 			for {
 				n, err := b.Read(buf)
 				for _, x := range buf[:n] {
@@ -81,40 +105,102 @@ func raceProbe(c *vh.Ctx) {
 				return 0, false
 			}
 		}
+		sendRes := make(chan error, 1)
 		go func() {
 			sctx, scancel := context.WithTimeout(context.Background(), 3*time.Second)
 			defer scancel()
-			item, _ := tokenItem(c.Rng, 1, 1, true)
-			_, _ = conn.SendDataMessage(sctx, 1, 1, false, item)
+			nb := 1
+			if failAt > 0 {
+				nb = 3
+			}
+			item, _ := tokenItem(c.Rng, 1, nb, !equip)
+			_, err := conn.SendDataMessage(sctx, 1, 1, false, item)
+			sendRes <- err
 		}()
+		// our own block: ENQ, wait for the grant, transmit, wait for ACK
+		ownBlock := func() bool {
+			if x, ok := read(60 * time.Millisecond); ok && x == chEOT {
+				h, body := tokenBlock(equip, 4242)
+				_ = b.SetWriteDeadline(time.Now().Add(time.Second))
+				_, _ = b.Write(wireOf(h, body))
+				if x, ok := read(80 * time.Millisecond); ok && x == chACK {
+					return true
+				}
+			}
+			return false
+		}
 		gotAck := false
-		if x, ok := read(2 * time.Second); ok && x == chENQ { // the host requests the line
-			_, _ = b.Write([]byte{chENQ})                      // contend: the host (slave) yields
-			if x, ok := read(time.Second); ok && x == chEOT {  // ... and now waits T2 for our block; stay silent
-				if x, ok := read(time.Second); ok && x == chNAK { // T2 expired: its send is failing (retry limit 0)
-					_, _ = b.Write([]byte{chENQ})
-					if x, ok := read(60 * time.Millisecond); ok && x == chEOT {
-						h, body := tokenBlock(false, 4242)
-						_ = b.SetWriteDeadline(time.Now().Add(time.Second))
-						_, _ = b.Write(wireOf(h, body))
-						if x, ok := read(80 * time.Millisecond); ok && x == chACK {
-							gotAck = true
-						}
+		desc := ""
+		if failAt == 0 {
+			desc = "host retry-limit=0: master contends, stays silent after the host's EOT, sends ENQ+block right after the host's NAK"
+			if x, ok := read(2 * time.Second); ok && x == chENQ { // the host requests the line
+				_, _ = b.Write([]byte{chENQ})                     // contend: the host (slave) yields
+				if x, ok := read(time.Second); ok && x == chEOT { // ... and now waits T2 for our block; stay silent
+					if x, ok := read(time.Second); ok && x == chNAK { // T2 expired: its send is failing (retry limit 0)
+						_, _ = b.Write([]byte{chENQ})
+						gotAck = ownBlock()
 					}
 				}
 			}
+		} else {
+			desc = fmt.Sprintf("equip=%v retry-limit=%d: blocks before %d of a 3-block message ACK'd, block %d NAK'd %d times, then ENQ+block at once",
+				equip, limit, failAt, failAt, limit+1)
+			naks := 0
+			for blk := 1; naks <= limit; {
+				x, ok := read(2 * time.Second)
+				if !ok {
+					break
+				}
+				if x != chENQ {
+					continue
+				}
+				_, _ = b.Write([]byte{chEOT})
+				lb, ok := read(time.Second)
+				if !ok {
+					break
+				}
+				for k := 0; k < int(lb)+2; k++ {
+					if _, ok := read(time.Second); !ok {
+						break
+					}
+				}
+				if blk < failAt {
+					_, _ = b.Write([]byte{chACK})
+					blk++
+					continue
+				}
+				naks++
+				if naks <= limit {
+					_, _ = b.Write([]byte{chNAK})
+					continue
+				}
+				_, _ = b.Write([]byte{chNAK, chENQ}) // the last NAK and our own request, back to back
+				gotAck = ownBlock()
+			}
+		}
+		var sendErr error
+		select {
+		case sendErr = <-sendRes:
+		case <-time.After(4 * time.Second):
+			sendErr = context.DeadlineExceeded
 		}
 		time.Sleep(150 * time.Millisecond)
 		mu.Lock()
 		n := got
 		mu.Unlock()
+		c.Count(fmt.Sprintf("race/variant=%d", variant))
 		if gotAck {
 			acked++
 			if n == 0 {
 				lost++
 				c.Fail("a block ACK'd on the line while the receiver's failed send was tearing the link down never reached the handler",
-					fmt.Sprintf("race attempt=%d host retry-limit=0: master contends, stays silent after the host's EOT, sends ENQ+block right after the host's NAK; ACK received, handler deliveries=0", i))
+					fmt.Sprintf("race attempt=%d %s; ACK received, handler deliveries=0", i, desc))
 			}
+		}
+		if sendErr == nil || !errors.Is(sendErr, secs1.ErrSendFailed) {
+			sentinelBad++
+			c.Fail("the error of a send whose retries were exhausted does not satisfy errors.Is(err, secs1.ErrSendFailed)",
+				fmt.Sprintf("race attempt=%d %s; error: %v", i, desc, sendErr))
 		}
 		done := make(chan struct{})
 		go func() { _ = conn.Close(); close(done) }()
@@ -125,5 +211,6 @@ func raceProbe(c *vh.Ctx) {
 		_ = b.Close()
 	}
 	c.Count(fmt.Sprintf("race/acked=%d/lost=%d", acked, lost))
-	c.Note(fmt.Sprintf("race probe: %d attempts, %d blocks ACK'd after the failed send, %d of them never delivered", c.N, acked, lost))
+	c.Note(fmt.Sprintf("race probe: %d attempts, %d blocks ACK'd after the failed send, %d of them never delivered, %d send errors without the ErrSendFailed sentinel",
+		c.N, acked, lost, sentinelBad))
 }
